@@ -187,7 +187,7 @@ META = {
    technique='Coq theorems (induction over paths/entry lists; finite-table lemmas by vm_compute) + differential model/implementation runs',
    level_text='Proved in Coq for all inputs (no size bound): path escape round trip, one-field/one-line shape, int(str(n)), '
               'strptime(strftime(ts)) over all valid datetimes, per-entry and whole-file load(dump(es)) = es for every list of well-formed '
-              'entries; the canonical fixed point is proved given well-formedness of the parsed entries (C08_fixpoint_partial). '
+              'entries; every entry the parser returns for a Python str is well-formed (C08_parsed_wf), hence the canonical fixed point without any premise on the parsed entries (C08_fixpoint): the rewritten text is accepted with equal entries and writing those gives the same text. '
               'The model is tied to /repo by regenerated tables (regexes, encode_char, tag table) and by exhaustive/random correspondence.',
    level_note='Theorems are about the hand-written model Model/{Entry,Text}.v; Python builtins modelled in Py/; compression codecs and UTF-8 '
               'are exercised on the implementation only (round trip through real files); Print Assumptions: closed under the global context.'),
